@@ -40,10 +40,11 @@ def release_trace(sc):
             for r in rows:
                 p = r["pay"]
                 val = dict(mult=str(r["mult"]), release_time=_fmt_time(r["t"], sc["tfmt"]), X=repr(p["x"] / QX), Y=repr(p["y"] / QX),
-                           Z=repr(p["z"] / QZ), farm=str(p["id"]), wt=repr(p["wt"] / QZ))
+                           Z=repr(p["z"] / QZ), farm=str(p["id"]), wt=repr(p["wt"] / QZ), hatch=iso(p.get("ht", 0)))
                 f.write(sc["sep"].join(val[k] for k in cols) + "\n")
         timer = TimeKeeper(start=iso(c["start"]), stop=iso(c["stop"]), dt=c["dt"], time_reversal=c["rev"])
-        st = State(instance_variables=dict(farm=int, wt=float), particle_variables=dict(release_time="time"),
+        has_hatch = "hatch" in cols       # a second time-typed column, carried as a particle variable
+        st = State(instance_variables=dict(farm=int, wt=float), particle_variables=dict(release_time="time", **({"hatch": "time"} if has_hatch else {})),
                    default_values=dict(wt=0.0))
         kw = dict(continuous=c["cont"])
         if c["cont"]:
@@ -70,8 +71,9 @@ def release_trace(sc):
                 w, o4 = lat(st.wt[i], QZ)
                 pid = int(st.pid[i])
                 rt = secs_of(st["release_time"][pid]) if pid < len(st["release_time"]) else None
-                off |= o1 or o2 or o3 or o4 or rt is None
-                new.append(dict(pid=pid, pay=dict(id=int(st.farm[i]), x=x, y=y, z=z, wt=w), rt=rt if rt is not None else 0,
+                ht = (secs_of(st["hatch"][pid]) if pid < len(st["hatch"]) else None) if has_hatch else 0
+                off |= o1 or o2 or o3 or o4 or rt is None or ht is None
+                new.append(dict(pid=pid, pay=dict(id=int(st.farm[i]), x=x, y=y, z=z, wt=w, ht=ht if ht is not None else -1), rt=rt if rt is not None else 0,
                                 alive=bool(st.alive[i]), active=bool(st.active[i])))
             ev.append(dict(ev="release", step=int(timer.step), new=new, npid=int(st.npid), off=bool(off)))
     except SystemExit as e:
@@ -108,12 +110,16 @@ def scenario(rng, small):
             rid += 1
             rows.append(dict(t=t, mult=rng.choice([0, 1, 1, 2, 3]) if rng.random() > 0.02 else rng.choice([257, 700]),      # (now and then a row with hundreds of particles)
                              pay=dict(id=rid, x=rng.randrange(1 * QX, 9 * QX), y=rng.randrange(1 * QX, 7 * QX),
-                                      z=rng.randrange(0, 50 * QZ), wt=rng.randrange(0, 40))))
+                                      z=rng.randrange(0, 50 * QZ), wt=rng.randrange(0, 40), ht=0)))
     nomult = rng.random() < 0.15
     if nomult:
         for r in rows:
             r["mult"] = 1
     cols = ["mult", "release_time", "X", "Y", "Z", "farm", "wt"]
+    if rng.random() < 0.3:              # a second time-typed column (hatching time some hours before / after the release)
+        cols.append("hatch")
+        for r in rows:
+            r["pay"]["ht"] = r["t"] + 3600 * rng.randrange(-30, 30)
     if nomult:
         cols.remove("mult")
     if rng.random() < 0.5:
@@ -138,8 +144,12 @@ def from_model(scn, rng):
     rows = []
     for r in scn["table"]:
         rows.append(dict(t=base + r["t"] * dt, mult=r["mult"],
-                         pay=dict(id=r["id"], x=rng.randrange(1 * QX, 9 * QX), y=rng.randrange(1 * QX, 7 * QX), z=rng.randrange(0, 50 * QZ), wt=rng.randrange(0, 40))))
+                         pay=dict(id=r["id"], x=rng.randrange(1 * QX, 9 * QX), y=rng.randrange(1 * QX, 7 * QX), z=rng.randrange(0, 50 * QZ), wt=rng.randrange(0, 40), ht=0)))
     cols = ["mult", "release_time", "X", "Y", "Z", "farm", "wt"]
+    if rng.random() < 0.3:              # a second time-typed column (hatching time some hours before / after the release)
+        cols.append("hatch")
+        for r in rows:
+            r["pay"]["ht"] = r["t"] + 3600 * rng.randrange(-30, 30)
     return dict(cfg=dict(start=base + c["start"] * dt, stop=base + c["stop"] * dt, dt=dt, rev=c["rev"], cont=c["cont"], freq=c["freq"] * dt), table=rows,
                 cols=cols, header=True, sep=" ", tfmt="full", freqform=c["freq"] * dt,
                 cls=dict(rev=c["rev"], cont=c["cont"], multi_time=len({r["t"] for r in rows}) > 1, rows_in_window=not scn["refused"], only_at_stop=False, from_model=True))
@@ -178,7 +188,7 @@ def run(tier, seed, family=FAMILY, pid="C04"):
     rep.add_tv("release-from-model", "ReleaseTrace", ms, mt, tlc.validate_traces("ReleaseTrace", mt), family=family)
     rep.extra["scenarios_generated_by_tlc"] = len(scns)
     rep.nontrivial = len({repr((s["cfg"], s["table"])) for s in scs + ms if s["cls"]["rows_in_window"]})
-    rep.rule = ("random release set-ups (window, direction, discrete/continuous, frequency, 1-4 file times x 1-3 rows (now and then 7-15 rows per time, 20-60 in all), mult 0-3 (now and then hundreds), with or without an idle frequency, "
+    rep.rule = ("random release set-ups (window, direction, discrete/continuous, frequency, 1-4 file times x 1-3 rows (now and then 7-15 rows per time, 20-60 in all), mult 0-3 (now and then hundreds), with or without an idle frequency, a second time-typed column in a third of the tables, "
                 "column order, header or names, separators, time spellings); non-trivial = distinct (cfg, table) with a row inside the window")
     rep.assumptions = ["release tables sorted in simulation order, times on the model time grid, continuous file times on the tick grid (C04's quantifier)",
                        "positions given as X/Y (lon/lat conversion is C16)"]
